@@ -316,14 +316,17 @@ def traffic_log_round_trip(ctx, repo, rule):
     H = "GeckoStatusBlockProtocolHandler"
     cases = (("all-byte-values", bytes(range(256)) * 4), ("zeros", bytes(1024)), ("tag-like-text", (b"</DATAS>'\\x27 STATV [0x1, '0x2']\n" * 40)[:1024]),
              ("backslash-then-apostrophe", (b"\\'ab\\\\'c" * 120)[:1024]), ("both-quotes-and-backslashes", (b"\"\\'x'\\\\\"" * 130)[:1024]))
+    # ... and other segmentations of the same block (the property says ALL segmentations): 4-byte segments give 256 of
+    # them - every value a segment index byte can take passes through the reader
+    cases = tuple((k, b, 39) for k, b in cases) + (("all-byte-values::4-byte-segments", bytes(range(256)) * 4, 4), ("zeros::8-byte-segments", bytes(1024), 8))
     n = 0
-    for key, block in cases:
+    for key, block, seg in cases:
         it = Interp(repo, max_depth=14)
         lines = []
         try:
-            nseg = (len(block) + 38) // 39
+            nseg = (len(block) + seg - 1) // seg
             for i in range(nseg):
-                data = block[i * 39:(i + 1) * 39]
+                data = block[i * seg:(i + 1) * seg]
                 msg = it.call(repo.method(H, "response"), None, [i, (i + 1) % nseg, data], {"parms": ("10.0.0.5", 10022, b"SPA-ID", b"IOS-CLIENT")})
                 wire = it.getattr(msg, "send_bytes")
                 if not isinstance(wire, (bytes, bytearray)):
@@ -345,7 +348,7 @@ def traffic_log_round_trip(ctx, repo, rule):
                f"a traffic log of {len(lines)} STATV datagrams carrying a {len(block)}-byte block ({key}) read by GeckoSnapshot.parse gives "
                f"{(str(len(got)) + ' bytes, first difference at ' + str(first)) if isinstance(got, (bytes, bytearray)) else got!r}: the raw traffic log does not reassemble to the transferred block",
                repo.method("GeckoSnapshot", "parse").loc, sample={"rule": rule, "case": key, "datagrams": len(lines)})
-    ctx.floor(rule, "traffic logs interpreted", n, 5)
+    ctx.floor(rule, "traffic logs interpreted", n, 7)
 
 
 def firmware_strings(ctx, repo, rule):
@@ -547,6 +550,12 @@ def check(ctx):
     ctx.rule("R9", "... through the packet layer unchanged: a frame built by send_bytes and handed to handle() gives back exactly the payload, for any payload bytes (C04's end-to-end frame round trip on symbolic payloads borrowed; strip-like calls on a payload are adversarial)")
     from .c04 import framing as _framing
     _framing(ctx.borrowed("R9", "C04", only=("R4",), key_contains="frame-round-trip"), repo)
+    ctx.rule("R11", "the simulator understands every request for the block: the STATU request a client builds is decoded by the peer to the same sequence number, start and length for EVERY value of those fields, and a STATV segment to the same index / next / payload (C04's symbolic round trip of the status-block messages borrowed) - a request whose number happens to spell a letter of the verb must still be served")
+    from .c04 import round_trips as _rt19
+    try:
+        _rt19(ctx.borrowed("R11", "C04", only=("R2",), key_prefix="GeckoStatusBlockProtocolHandler"), repo)
+    except AnalysisError as e:
+        ctx.error(f"R11 (C04.R2 borrowed): {e}")      # reported, and the rules below still run
     ctx.rule("R10", "the firmware a snapshot records is the connection's: on both stacks the version step of the handshake, interpreted with a reply of six pairwise distinct numbers, stores '<EN build> v<major>.<minor>' and '<CO build> v<major>.<minor>' - the strings the shell writes and the reader parses back")
     firmware_strings(ctx, repo, "R10")
     ctx.rule("R8", "writer and reader composed by interpretation: three snapshots (all byte values / zeros with extreme versions / bytes that look like list punctuation, with a hyphenated pack name) written by GeckoShell.do_snapshot on a model facade and read back line by line through GeckoSnapshot.parse, in both log formats: bytes, pack type, firmware EN/CO, config and log versions and the name come back exactly")
